@@ -190,11 +190,20 @@ def stream_tree(ctx, built, ntables, oracle=None, with_counts=False, max_rows=16
         reals = []
         lt = t["ap"].low_count_params.low_threshold
         for comb in combs:
-            root = F.get_tree(comb); reals.append(root)
+            try:
+                root = F.get_tree(comb)
+            except RecursionError:
+                # every 1-column tree was built, so the recursion does not come from close values (F10): the model is asked for the
+                # same tree and its answer (a dump, or its own budget error) is compared with this
+                reals.append(None); lines.append("tree " + " ".join(map(str, comb))); exp_blocks.append(["RecursionError in get_tree"])
+                continue
+            reals.append(root)
             lines.append("tree " + " ".join(map(str, comb))); exp_blocks.append(dump_real(root))
             if with_counts:
                 lines.append("counts " + " ".join(map(str, comb))); exp_blocks.append(counts_real(root, lt))
         for comb, root in zip(combs, reals):
+            if root is None:
+                continue
             st = tree_stats(root)
             S.count((repr(t["cols"]), repr(t["pids"]), comb, repr(t["ap"]), repr(t["bp"])), st["depth"] >= 1,
                     {"table": table_summary(t), "comb": comb, "tree": st}, tag=f"dim{len(comb)}/depth{min(st['depth'], 6)}")
@@ -300,6 +309,8 @@ def stream_harvest(ctx, built, ntables, oracle=None, max_rows=160, maxdim=3, par
                 exp = [f"{b.count} | {ivs(b.intervals)}" for b in bs] + [f"drawn {len(stream)}"]
             except ZeroDivisionError:
                 bs, stream, exp = None, [], ["ERR zerodiv"]
+            except RecursionError:
+                bs, stream, exp = None, [], ["RecursionError in get_tree/harvest"]      # 1-column trees were built: compared with the model's answer
             lines.append("harvest " + " ".join(map(str, comb)) + " | " + " ".join(map(str, stream))); exp_blocks.append(exp)
             refined = bs is not None and len(stream) > 0
             S.count((repr(t["cols"]), repr(t["pids"]), comb, repr(t["ap"]), repr(t["bp"])), bs is not None and len(bs) >= 2,
